@@ -28,16 +28,19 @@ func TestMain(m *testing.M) {
 }
 
 type logical struct {
-	LR        vkit.LogicalRequest
-	ID        string // value captured by :id (decoded)
-	Rest      string // value captured by *rest (decoded)
-	HdrName   string // a custom header the pipeline reads
-	HdrValues []string
-	HdrLookup string // the casing used in expressions/templates
-	Cookie    string
-	DupCookie bool
-	BodyKind  string
-	BodyField string
+	LR           vkit.LogicalRequest
+	ID           string // value captured by :id (decoded)
+	Rest         string // value captured by *rest (decoded)
+	HdrName      string // a custom header the pipeline reads
+	HdrValues    []string
+	HdrLookup    string // the casing used in expressions/templates
+	Cookie       string
+	DupCookie    bool
+	QuotedCookie bool
+	// ContentType as sent (informational)
+	ContentType string
+	BodyKind    string
+	BodyField   string
 }
 
 func randCase(t *rapid.T, s string) string {
@@ -118,6 +121,12 @@ func genLogical(t *rapid.T) logical {
 		l.Cookie = rapid.SampledFrom([]string{"abc123", "s3ss10n"}).Draw(t, "cookie")
 		value := "other=1; sid=" + l.Cookie + "; theme=dark"
 
+		// a cookie value may be sent in double quotes (RFC 6265, section 4.1.1); the quotes are not part of the value
+		if rapid.IntRange(0, 3).Draw(t, "quotedCookieValue") == 0 {
+			value = "other=1; sid=\"" + l.Cookie + "\"; theme=dark"
+			l.QuotedCookie = true
+		}
+
 		// the same cookie name a second time with another value: every entry point has to resolve it the same way
 		switch rapid.IntRange(0, 3).Draw(t, "duplicateCookie") {
 		case 0:
@@ -155,6 +164,32 @@ func genLogical(t *rapid.T) logical {
 		// a content type is announced, but there is no body
 		l.LR.Headers = append(l.LR.Headers, vkit.HeaderKV{Name: "Content-Type", Value: map[string]string{"empty+json": "application/json",
 			"empty+form": "application/x-www-form-urlencoded", "empty+yaml": "application/yaml"}[l.BodyKind]})
+	}
+
+	// the content type may be spelled with parameters, in another case, or carry the name of another format in a
+	// parameter: whatever that means for decoding the body, it has to mean the same at every entry point
+	for i := range l.LR.Headers {
+		if l.LR.Headers[i].Name != "Content-Type" {
+			continue
+		}
+
+		ct := l.LR.Headers[i].Value
+
+		switch rapid.IntRange(0, 6).Draw(t, "contentTypeSpelling") {
+		case 0:
+			ct += "; charset=utf-8"
+		case 1:
+			ct = strings.ToUpper(ct)
+		case 2:
+			ct = strings.Replace(ct, "application", "Application", 1)
+		case 3:
+			ct += "; format=json"
+		case 4:
+			ct += "; charset"
+		}
+
+		l.LR.Headers[i].Value = ct
+		l.ContentType = ct
 	}
 
 	// the body reaches the Envoy entry point as bytes or as string, depending on Envoy's configuration
@@ -439,6 +474,7 @@ func TestEntryPointsAgree(t *testing.T) {
 		vkit.S.LabelIf(k.MultiValue, "multi_valued_pipeline_header")
 		vkit.S.LabelIf(len(l.HdrValues) >= 2, "multi_valued_request_header")
 		vkit.S.LabelIf(l.DupCookie, "duplicate_cookie_name")
+		vkit.S.LabelIf(l.QuotedCookie, "quoted_cookie_value")
 		vkit.S.LabelIf(strings.Contains(l.LR.RawPath, "%"), "encoded_path")
 		vkit.S.Label(fmt.Sprintf("decision_positive=%v", obs[vkit.EntryDecision].Positive))
 
